@@ -2,7 +2,6 @@ package main
 
 import (
 	"go/token"
-	"go/types"
 
 	"golang.org/x/tools/go/ssa"
 )
@@ -11,7 +10,7 @@ func init() {
 	register(&propDef{
 		ID:      "C04",
 		Level:   "other",
-		Explain: "Necessary structural conditions of weighted distribution, decided on all paths: (R1) every function that changes Route.Targets or Target.FixedWeight rebuilds the weighted ring (weighTargets) on every path to its return — the only accepted skip is the count-guarded one (the mutating closure returns the number of targets it changed and the rebuild is skipped only on the 'changed == 0' edge); (R2) every registered picker returns an element of the ring Route.wTargets, never of Route.Targets; (R3) the round-robin index derives from the result of the atomic read-modify-write on the cursor; (R4) in the ring builder a target with weight > 0 receives at least one slot (the slot count fed into the ring is max(n,1) under weight > 0) and targets with a slot count <= 0 are skipped; (R5) ring arithmetic cannot panic: divisions/moduli are dominated by non-zero tests, the ring allocation by usedSlots > 0, weights are finite when they leave the parser. (R6) a weight computed by subtraction is clamped at zero. Not decided: that the effective weights sum to one, the per-cycle share within 1/10000 and proportional scaling (floating-point arithmetic over all weight vectors).",
+		Explain: "Necessary structural conditions of weighted distribution, decided on all paths. Sites are found by role, not by function name: the ring builder is the function of package route whose region (itself + the same-package helpers it calls) contains every store to Target.Weight and to the ring field of Route (the []*Target field other than Targets) and changes none of its inputs; pickers are the functions registered in route.Picker or used as func(*Route) *Target values. (R1) after every store to Route.Targets (field or element) or to Target.FixedWeight of an existing target, every path to a return performs a full rebuild (a call of the builder or of a wrapper that reaches it on all paths, possibly deferred; never a goroutine); a helper/closure/method value that only makes the change hands the obligation to all of its call sites; the only accepted skip is the count-guarded one (the callee returns an integer incremented whenever it makes a change and the rebuild is skipped only on an edge where that result is 0); (R2) every result of a picker, followed through locals, phis and helper results, is an element of the ring, and nil only under len(ring)==0 in any spelling; (R3) the slot index of a picker that touches a cursor field of Route derives from the result of the sync/atomic read-modify-write on it (function or method spelling) and from no other read, the cursor is written nowhere else (no separate store/reset), and a picker without a cursor draws its index from a call per lookup; (R4) the float->int slot count derived from Target.Weight is used only through a merge that raises it to >= 1 exactly under (count == 0 and weight > 0) (if/switch/early return/max/n++/helper forms); (R5) integer divisions in the builder region have a divisor proved non-zero (facts lifted through helper parameters), the computed-size ring allocation is proved non-negative, a float from strconv.ParseFloat leaves the route parser only when proved finite (IsNaN/IsInf, comparisons, or a validator helper); (R6) every definition reaching a store to Target.Weight that carries a floating-point difference is chosen only where it is known non-negative (`< 0 => 0` clamp, max(x, 0), or a comparison of the operands). Not decided: that the effective weights sum to one, the per-cycle share within 1/10000 and proportional scaling (floating-point arithmetic over all weight vectors).",
 		Run:     runC04,
 		Trusted: []string{"sort.Sort does not change the multiset of slots", "sync/atomic.AddUint64 returns the new value atomically"},
 		Mutants: []mutant{
@@ -28,44 +27,69 @@ func init() {
 			{Name: "remainder weight not clamped", File: "route/route.go", Old: "\tif dynamic < 0 {\n\t\tdynamic = 0\n\t}\n", New: "", Expect: "C04.R6"},
 			{Name: "benign: floor written as n < 1", File: "route/route.go", Old: "if n == 0 && t.Weight > 0 {", New: "if t.Weight > 0 && n < 1 {", Expect: ""},
 			{Name: "benign: index from AddUint64(...)-1 inline", File: "route/picker.go", Old: "\tn := atomic.AddUint64(&r.total, 1) - 1\n\treturn r.wTargets[n%uint64(len(r.wTargets))]", New: "\treturn r.wTargets[(atomic.AddUint64(&r.total, 1)-1)%uint64(len(r.wTargets))]", Expect: ""},
+			// ---- proactive pass: behaviour-preserving rewrites of kinds that are not in the benign corpus
+			{Name: "benign: rebuild deferred at the top of filter", File: "route/route.go", Old: "\tvar clone []*Target\n", New: "\tdefer r.weighTargets()\n\tvar clone []*Target\n", More: []repl{{"\tr.Targets = clone\n\tr.weighTargets()", "\tr.Targets = clone"}}, Expect: ""},
+			{Name: "benign: ring builder renamed", File: "route/route.go", Old: "weighTargets", New: "rebuildRing", All: true, Expect: ""},
+			{Name: "benign: Targets stored through a setter, rebuild stays in the caller", File: "route/route.go", Old: "\tr.Targets = clone\n\tr.weighTargets()\n}", New: "\tr.setTargets(clone)\n\tr.weighTargets()\n}\n\nfunc (r *Route) setTargets(ts []*Target) {\n\tr.Targets = ts\n}", Expect: ""},
+			{Name: "benign: store+rebuild merged into one helper used by filter and addTarget", File: "route/route.go", Old: "\tr.Targets = clone\n\tr.weighTargets()\n}", New: "\tr.update(clone)\n}\n\nfunc (r *Route) update(ts []*Target) {\n\tr.Targets = ts\n\tr.weighTargets()\n}", More: []repl{{"\tr.Targets = append(r.Targets, t)\n\tr.weighTargets()", "\tr.update(append(r.Targets, t))"}}, Expect: ""},
+			{Name: "benign: setWeight closure becomes a method, count guard becomes an early return", File: "route/route.go", Old: "\tloop := func(w float64) int {\n", New: "\treturn r.spread(service, tags, weight)\n}\n\nfunc (r *Route) assign(service string, tags []string, w float64) int {\n", More: []repl{{"\t\treturn n\n\t}\n", "\t\treturn n\n}\n\nfunc (r *Route) spread(service string, tags []string, weight float64) int {\n"}, {"\tn := loop(0)\n\tw := weight / float64(n)\n\tloop(w)\n\n\tif n > 0 {\n\t\tr.weighTargets()\n\t}\n\treturn n\n}", "\tn := r.assign(service, tags, 0)\n\tif n == 0 {\n\t\treturn 0\n\t}\n\tr.assign(service, tags, weight/float64(n))\n\tr.weighTargets()\n\treturn n\n}"}}, Expect: ""},
+			{Name: "benign: builder wrapped (rebuild -> weighTargets), mutators call the wrapper", File: "route/route.go", Old: "\tr.Targets = clone\n\tr.weighTargets()\n}", New: "\tr.Targets = clone\n\tr.rebuild()\n}\n\nfunc (r *Route) rebuild() {\n\tr.weighTargets()\n}", Expect: ""},
+			{Name: "benign: equal-share case split off the builder, helper publishes the ring itself", File: "route/route.go", Old: "\tif nFixed == 0 {\n\t\tw := 1.0 / float64(len(r.Targets))\n\t\tfor _, t := range r.Targets {\n\t\t\tt.Weight = w\n\t\t}\n\t\tr.wTargets = r.Targets\n\t\treturn\n\t}\n", New: "\tif nFixed == 0 {\n\t\tr.equalShares()\n\t\treturn\n\t}\n", More: []repl{{"type byN []struct{ i, n int }", "func (r *Route) equalShares() {\n\tw := 1.0 / float64(len(r.Targets))\n\tfor _, t := range r.Targets {\n\t\tt.Weight = w\n\t}\n\tr.wTargets = r.Targets\n}\n\ntype byN []struct{ i, n int }"}}, Expect: ""},
+			{Name: "benign: FixedWeight assigned after the Target literal", File: "route/route.go", Old: "\t\tFixedWeight: fixedWeight,\n", New: "", More: []repl{{"\tvar err error\n\tif opts != nil {", "\tt.FixedWeight = fixedWeight\n\tvar err error\n\tif opts != nil {"}}, Expect: ""},
+			{Name: "benign: picker guard inverted, ring in a local", File: "route/picker.go", Old: "\tif len(r.wTargets) == 0 {\n\t\treturn nil\n\t}\n\tn := atomic.AddUint64(&r.total, 1) - 1\n\treturn r.wTargets[n%uint64(len(r.wTargets))]", New: "\tif ring := r.wTargets; len(ring) > 0 {\n\t\tn := atomic.AddUint64(&r.total, 1) - 1\n\t\treturn ring[n%uint64(len(ring))]\n\t}\n\treturn nil", Expect: ""},
+			{Name: "benign: pickers share emptyRing() and slot(i) helpers", File: "route/picker.go", Old: "\tif len(r.wTargets) == 0 {\n\t\treturn nil\n\t}\n\treturn r.wTargets[randIntn(len(r.wTargets))]\n}", New: "\tif r.emptyRing() {\n\t\treturn nil\n\t}\n\treturn r.slot(uint64(randIntn(len(r.wTargets))))\n}\n\nfunc (r *Route) emptyRing() bool { return len(r.wTargets) == 0 }\n\nfunc (r *Route) slot(i uint64) *Target { return r.wTargets[i%uint64(len(r.wTargets))] }", More: []repl{{"\tif len(r.wTargets) == 0 {\n\t\treturn nil\n\t}\n\tn := atomic", "\tif r.emptyRing() {\n\t\treturn nil\n\t}\n\tn := atomic"}, {"return r.wTargets[n%uint64(len(r.wTargets))]", "return r.slot(n)"}}, Expect: ""},
+			{Name: "benign: picker result through a named result variable", File: "route/picker.go", Old: "func rrPicker(r *Route) *Target {\n\tif len(r.wTargets) == 0 {\n\t\treturn nil\n\t}\n\tn := atomic.AddUint64(&r.total, 1) - 1\n\treturn r.wTargets[n%uint64(len(r.wTargets))]", New: "func rrPicker(r *Route) (t *Target) {\n\tif size := uint64(len(r.wTargets)); size != 0 {\n\t\tt = r.wTargets[(atomic.AddUint64(&r.total, 1)-1)%size]\n\t}\n\treturn t", Expect: ""},
+			{Name: "benign: floor written as max(n, 1) under the weight test", File: "route/route.go", Old: "\t\tif n == 0 && t.Weight > 0 {\n\t\t\tn = 1\n\t\t}\n", New: "\t\tif t.Weight > 0 {\n\t\t\tn = max(n, 1)\n\t\t}\n", Expect: ""},
+			{Name: "benign: floor written as n++", File: "route/route.go", Old: "if n == 0 && t.Weight > 0 {\n\t\t\tn = 1", New: "if n == 0 && t.Weight > 0 {\n\t\t\tn++", Expect: ""},
+			{Name: "benign: floor as nested ifs, weight test first", File: "route/route.go", Old: "\t\tif n == 0 && t.Weight > 0 {\n\t\t\tn = 1\n\t\t}\n", New: "\t\tif 0 < t.Weight {\n\t\t\tif n < 1 {\n\t\t\t\tn = 1\n\t\t\t}\n\t\t}\n", Expect: ""},
+			{Name: "benign: zero-weight targets skipped before the slot count", File: "route/route.go", Old: "\t\tn := int(float64(maxSlots) * t.Weight)\n\t\tif n == 0 && t.Weight > 0 {\n\t\t\tn = 1\n\t\t}\n\t\tslots[i].i = i\n", New: "\t\tslots[i].i = i\n\t\tif t.Weight <= 0 {\n\t\t\tcontinue\n\t\t}\n\t\tn := int(float64(maxSlots) * t.Weight)\n\t\tif n == 0 {\n\t\t\tn = 1\n\t\t}\n", Expect: ""},
+			{Name: "benign: placement loop extracted, ring size passed as a parameter", File: "route/route.go", Old: "\tsort.Sort(slots)\n\ttargets := make([]*Target, usedSlots)\n\tfor _, s := range slots {", New: "\tsort.Sort(slots)\n\tr.wTargets = spread(r.Targets, slots, usedSlots)\n}\n\nfunc spread(all []*Target, slots byN, usedSlots int) []*Target {\n\ttargets := make([]*Target, usedSlots)\n\tfor _, s := range slots {", More: []repl{{"targets[next] = r.Targets[s.i]", "targets[next] = all[s.i]"}, {"\tr.wTargets = targets\n}", "\treturn targets\n}"}}, Expect: ""},
+			{Name: "benign: usedSlots guard written as < 1", File: "route/route.go", Old: "\tif usedSlots <= 0 {\n\t\tr.wTargets = nil", New: "\tif usedSlots < 1 {\n\t\tr.wTargets = nil", Expect: ""},
+			{Name: "benign: clamp written as max(dynamic, 0)", File: "route/route.go", Old: "\tif dynamic < 0 {\n\t\tdynamic = 0\n\t}\n", New: "\tdynamic = max(dynamic, 0)\n", Expect: ""},
+			{Name: "benign: remainder computed only when the fixed weights leave one", File: "route/route.go", Old: "\tdynamic := (1 - sumFixed) / float64(len(r.Targets)-nFixed)\n\tif dynamic < 0 {\n\t\tdynamic = 0\n\t}\n", New: "\tdynamic := 0.0\n\tif sumFixed < 1 {\n\t\tdynamic = (1 - sumFixed) / float64(len(r.Targets)-nFixed)\n\t}\n", Expect: ""},
+			{Name: "benign: clamped remainder computed by a helper", File: "route/route.go", Old: "\tdynamic := (1 - sumFixed) / float64(len(r.Targets)-nFixed)\n\tif dynamic < 0 {\n\t\tdynamic = 0\n\t}\n", New: "\tdynamic := remainder(sumFixed, len(r.Targets)-nFixed)\n", More: []repl{{"type byN []struct{ i, n int }", "func remainder(sumFixed float64, n int) float64 {\n\td := (1 - sumFixed) / float64(n)\n\tif d < 0 {\n\t\treturn 0\n\t}\n\treturn d\n}\n\ntype byN []struct{ i, n int }"}}, Expect: ""},
+			{Name: "benign: finite(f) helper in the parser", File: "route/parse_new.go", Old: "if err != nil || math.IsNaN(f) || math.IsInf(f, 0) {", New: "if err != nil || !finite(f) {", More: []repl{{"func parseTags(s string) []string {", "func finite(f float64) bool { return !math.IsNaN(f) && !math.IsInf(f, 0) }\n\nfunc parseTags(s string) []string {"}}, Expect: ""},
+			{Name: "benign: finiteness tested by comparisons", File: "route/parse_new.go", Old: "if err != nil || math.IsNaN(f) || math.IsInf(f, 0) {", New: "if err != nil || f != f || f > math.MaxFloat64 || f < -math.MaxFloat64 {", Expect: ""},
+			{Name: "benign: setWeight closure becomes a method used through a method value", File: "route/route.go", Old: "\tloop := func(w float64) int {\n", New: "\treturn r.spread(service, tags, weight)\n}\n\nfunc (r *Route) assign(service string, tags []string, w float64) int {\n", More: []repl{{"\t\treturn n\n\t}\n", "\t\treturn n\n}\n\nfunc (r *Route) spread(service string, tags []string, weight float64) int {\n"}, {"\tn := loop(0)\n\tw := weight / float64(n)\n\tloop(w)\n\n\tif n > 0 {\n\t\tr.weighTargets()\n\t}\n\treturn n\n}", "\tapply := r.assign\n\tn := apply(service, tags, 0)\n\tapply(service, tags, weight/float64(n))\n\tif n != 0 {\n\t\tr.weighTargets()\n\t}\n\treturn n\n}"}}, Expect: ""},
+			{Name: "benign: floor applied by a helper that receives the count and the weight", File: "route/route.go", Old: "\t\tif n == 0 && t.Weight > 0 {\n\t\t\tn = 1\n\t\t}\n", New: "\t\tn = atLeastOne(n, t.Weight)\n", More: []repl{{"type byN []struct{ i, n int }", "func atLeastOne(n int, w float64) int {\n\tif n == 0 && w > 0 {\n\t\treturn 1\n\t}\n\treturn n\n}\n\ntype byN []struct{ i, n int }"}}, Expect: ""},
+			{Name: "benign: pickers registered in an init function", File: "route/picker.go", Old: "var Picker = map[string]picker{\n\t\"rnd\": rndPicker,\n\t\"rr\":  rrPicker,\n}", New: "var Picker = map[string]picker{}\n\nfunc init() {\n\tPicker[\"rnd\"] = rndPicker\n\tPicker[\"rr\"] = rrPicker\n}", Expect: ""},
+			{Name: "benign: ParseFloat wrapped in a helper, validation stays in parseWeight", File: "route/parse_new.go", Old: "\tf, err := strconv.ParseFloat(s, 64)\n", New: "\tf, err := parseFloat(s)\n", More: []repl{{"func parseTags(s string) []string {", "func parseFloat(s string) (float64, error) { return strconv.ParseFloat(s, 64) }\n\nfunc parseTags(s string) []string {"}}, Expect: ""},
+			// ---- breaks that the rewritten rules must still report
+			{Name: "ParseFloat wrapped in a helper, caller checks only NaN", File: "route/parse_new.go", Old: "\tf, err := strconv.ParseFloat(s, 64)\n\tif err != nil || math.IsNaN(f) || math.IsInf(f, 0) {", New: "\tf, err := parseFloat(s)\n\tif err != nil || math.IsNaN(f) {", More: []repl{{"func parseTags(s string) []string {", "func parseFloat(s string) (float64, error) { return strconv.ParseFloat(s, 64) }\n\nfunc parseTags(s string) []string {"}}, Expect: "C04.R5"},
+			{Name: "floor helper ignores the weight", File: "route/route.go", Old: "\t\tif n == 0 && t.Weight > 0 {\n\t\t\tn = 1\n\t\t}\n", New: "\t\tn = atLeastOne(n)\n", More: []repl{{"type byN []struct{ i, n int }", "func atLeastOne(n int) int {\n\tif n == 0 {\n\t\treturn 1\n\t}\n\treturn n\n}\n\ntype byN []struct{ i, n int }"}}, Expect: "C04.R4"},
+			{Name: "setter helper, caller forgets the rebuild", File: "route/route.go", Old: "\tr.Targets = clone\n\tr.weighTargets()\n}", New: "\tr.setTargets(clone)\n}\n\nfunc (r *Route) setTargets(ts []*Target) {\n\tr.Targets = ts\n}", Expect: "C04.R1"},
+			{Name: "rebuild started in a goroutine", File: "route/route.go", Old: "\tr.Targets = clone\n\tr.weighTargets()", New: "\tr.Targets = clone\n\tgo r.weighTargets()", Expect: "C04.R1"},
+			{Name: "filter skips the rebuild when nothing is left", File: "route/route.go", Old: "\tr.Targets = clone\n\tr.weighTargets()", New: "\tr.Targets = clone\n\tif len(clone) == 0 {\n\t\treturn\n\t}\n\tr.weighTargets()", Expect: "C04.R1"},
+			{Name: "closure counts only non-zero weights", File: "route/route.go", Old: "\t\t\tn++\n\t\t\tt.FixedWeight = w", New: "\t\t\tif w > 0 {\n\t\t\t\tn++\n\t\t\t}\n\t\t\tt.FixedWeight = w", Expect: "C04.R1"},
+			{Name: "method form of setWeight, rebuild only for more than one match", File: "route/route.go", Old: "\tloop := func(w float64) int {\n", New: "\treturn r.spread(service, tags, weight)\n}\n\nfunc (r *Route) assign(service string, tags []string, w float64) int {\n", More: []repl{{"\t\treturn n\n\t}\n", "\t\treturn n\n}\n\nfunc (r *Route) spread(service string, tags []string, weight float64) int {\n"}, {"\tn := loop(0)\n\tw := weight / float64(n)\n\tloop(w)\n\n\tif n > 0 {\n\t\tr.weighTargets()\n\t}\n\treturn n\n}", "\tn := r.assign(service, tags, 0)\n\tif n <= 1 {\n\t\treturn n\n\t}\n\tr.assign(service, tags, weight/float64(n))\n\tr.weighTargets()\n\treturn n\n}"}}, Expect: "C04.R1"},
+			{Name: "picker reports no target when the target list is empty", File: "route/picker.go", Old: "\tif len(r.wTargets) == 0 {\n\t\treturn nil\n\t}\n\treturn r.wTargets[randIntn", New: "\tif len(r.Targets) == 0 {\n\t\treturn nil\n\t}\n\treturn r.wTargets[randIntn", Expect: "C04.R2"},
+			{Name: "shared slot(i) helper indexes Route.Targets", File: "route/picker.go", Old: "\tif len(r.wTargets) == 0 {\n\t\treturn nil\n\t}\n\treturn r.wTargets[randIntn(len(r.wTargets))]\n}", New: "\tif r.emptyRing() {\n\t\treturn nil\n\t}\n\treturn r.slot(uint64(randIntn(len(r.wTargets))))\n}\n\nfunc (r *Route) emptyRing() bool { return len(r.wTargets) == 0 }\n\nfunc (r *Route) slot(i uint64) *Target { return r.Targets[i%uint64(len(r.Targets))] }", More: []repl{{"\tif len(r.wTargets) == 0 {\n\t\treturn nil\n\t}\n\tn := atomic", "\tif r.emptyRing() {\n\t\treturn nil\n\t}\n\tn := atomic"}, {"return r.wTargets[n%uint64(len(r.wTargets))]", "return r.slot(n)"}}, Expect: "C04.R2"},
+			{Name: "cursor reset at the end of the ring", File: "route/picker.go", Old: "\tn := atomic.AddUint64(&r.total, 1) - 1\n", New: "\tn := atomic.AddUint64(&r.total, 1) - 1\n\tif n >= uint64(len(r.wTargets)) {\n\t\tatomic.StoreUint64(&r.total, 0)\n\t}\n", Expect: "C04.R3"},
+			{Name: "random picker always takes slot 0", File: "route/picker.go", Old: "return r.wTargets[randIntn(len(r.wTargets))]", New: "return r.wTargets[0]", Expect: "C04.R3"},
+			{Name: "max(n, 1) for every target", File: "route/route.go", Old: "\t\tif n == 0 && t.Weight > 0 {\n\t\t\tn = 1\n\t\t}\n", New: "\t\tn = max(n, 1)\n", Expect: "C04.R4"},
+			{Name: "ring sized with the count before the floor", File: "route/route.go", Old: "\t\tif n == 0 && t.Weight > 0 {\n\t\t\tn = 1\n\t\t}\n\t\tslots[i].i = i\n\t\tslots[i].n = n\n\t\tusedSlots += n\n", New: "\t\tusedSlots += n\n\t\tif n == 0 && t.Weight > 0 {\n\t\t\tn = 1\n\t\t}\n\t\tslots[i].i = i\n\t\tslots[i].n = n\n", Expect: "C04.R4"},
+			{Name: "extracted placement called without the usedSlots guard", File: "route/route.go", Old: "\tsort.Sort(slots)\n\ttargets := make([]*Target, usedSlots)\n\tfor _, s := range slots {", New: "\tsort.Sort(slots)\n\tr.wTargets = spread(r.Targets, slots, usedSlots)\n}\n\nfunc spread(all []*Target, slots byN, usedSlots int) []*Target {\n\ttargets := make([]*Target, usedSlots)\n\tfor _, s := range slots {", More: []repl{{"targets[next] = r.Targets[s.i]", "targets[next] = all[s.i]"}, {"\tr.wTargets = targets\n}", "\treturn targets\n}"}, {"\tif usedSlots <= 0 {\n\t\tr.wTargets = nil\n\t\treturn\n\t}\n", ""}}, Expect: "C04.R5"},
+			{Name: "remainder computed when the fixed weights exceed 100%", File: "route/route.go", Old: "\tdynamic := (1 - sumFixed) / float64(len(r.Targets)-nFixed)\n\tif dynamic < 0 {\n\t\tdynamic = 0\n\t}\n", New: "\tdynamic := 0.0\n\tif sumFixed > 1 {\n\t\tdynamic = (1 - sumFixed) / float64(len(r.Targets)-nFixed)\n\t}\n", Expect: "C04.R6"},
+			{Name: "remainder helper without the clamp", File: "route/route.go", Old: "\tdynamic := (1 - sumFixed) / float64(len(r.Targets)-nFixed)\n\tif dynamic < 0 {\n\t\tdynamic = 0\n\t}\n", New: "\tdynamic := remainder(sumFixed, len(r.Targets)-nFixed)\n", More: []repl{{"type byN []struct{ i, n int }", "func remainder(sumFixed float64, n int) float64 {\n\td := (1 - sumFixed) / float64(n)\n\treturn d\n}\n\ntype byN []struct{ i, n int }"}}, Expect: "C04.R6"},
+			{Name: "finite(f) helper forgets the infinities", File: "route/parse_new.go", Old: "if err != nil || math.IsNaN(f) || math.IsInf(f, 0) {", New: "if err != nil || !finite(f) {", More: []repl{{"func parseTags(s string) []string {", "func finite(f float64) bool { return !math.IsNaN(f) }\n\nfunc parseTags(s string) []string {"}}, Expect: "C04.R5"},
 		},
 	})
 }
 
 func runC04(c *Ctx) {
-	runC04R1(c)
-	runPickersAs(c, "C04.R2", "C04.R3")
-	runC04R4(c)
+	b := c04cachedBuilder(c)
+	if b == nil {
+		c.undecided("C04.R1", "anchor|ring builder", "no function of package route whose region contains every store to Target.Weight and Route.wTargets and changes neither Route.Targets nor Target.FixedWeight: the ring builder does not resolve")
+	} else {
+		runC04R1(c, b)
+		runC04R4(c, b)
+	}
+	runC04Pickers(c, "C04.R2", "C04.R3")
 	runC04R5(c)
 	runC04R6(c)
 }
 
-// runPickersAs re-labels the picker rule for C04 (R2 ring element, R3 index from RMW).
-func runPickersAs(c *Ctx, r2, r3 string) {
-	tmp := &Ctx{Dir: c.Dir, Pkgs: c.Pkgs, Fset: c.Fset, Prog: c.Prog, spkgs: c.spkgs, ppkgs: c.ppkgs, AllFns: c.AllFns, cg: c.cg}
-	runPickers(tmp, "X")
-	for _, o := range tmp.Obs {
-		rule := r2
-		if len(o.Construct) > 0 && (containsStr(o.Construct, "index from RMW") || containsStr(o.Construct, "no shared cursor")) {
-			rule = r3
-		}
-		o.Rule = rule
-		c.Obs = append(c.Obs, o)
-	}
-}
-
-func containsStr(s, sub string) bool {
-	return len(sub) <= len(s) && (func() bool {
-		for i := 0; i+len(sub) <= len(s); i++ {
-			if s[i:i+len(sub)] == sub {
-				return true
-			}
-		}
-		return false
-	})()
-}
-
-// isRingMutation: a store to Route.Targets or Target.FixedWeight.
+// isRingMutation: a store to Route.Targets (the field, or an element of the slice it holds) or Target.FixedWeight.
 func isRingMutation(i ssa.Instruction) (string, bool) {
 	st, ok := i.(*ssa.Store)
 	if !ok {
@@ -73,6 +97,11 @@ func isRingMutation(i ssa.Instruction) (string, bool) {
 	}
 	if _, ok := fieldOf(st.Addr, "route.Route", "Targets"); ok {
 		return "Route.Targets", true
+	}
+	if ia, ok := st.Addr.(*ssa.IndexAddr); ok {
+		if _, ok := fieldOf(ia.X, "route.Route", "Targets"); ok {
+			return "Route.Targets", true
+		}
 	}
 	if fa, ok := st.Addr.(*ssa.FieldAddr); ok {
 		if _, isAlloc := fa.X.(*ssa.Alloc); isAlloc {
@@ -85,81 +114,242 @@ func isRingMutation(i ssa.Instruction) (string, bool) {
 	return "", false
 }
 
-func runC04R1(c *Ctx) {
-	weigh := c.method("route", "Route", "weighTargets")
-	if !c.need("C04.R1", weigh, "route.Route.weighTargets") {
-		return
-	}
-	sp := c.spkg("route")
-	n := 0
-	for _, f := range c.AllFns {
-		if f.Pkg != sp && !(f.Parent() != nil && isRepoFn(f)) {
-			continue
-		}
-		if f == weigh {
-			continue
-		}
-		var muts []ssa.Instruction
-		what := ""
-		eachInstr(f, func(i ssa.Instruction) {
-			if w, ok := isRingMutation(i); ok {
-				muts = append(muts, i)
-				what = w
-			}
-		})
-		if len(muts) == 0 {
-			continue
-		}
-		n++
-		isWeigh := func(i ssa.Instruction) bool { return staticCalleeIs(i, weigh) }
-		if f.Parent() == nil {
-			for _, m := range muts {
-				ret, open := exitReachableAvoiding(m, isWeigh)
-				pos := m.Pos()
-				if open {
-					pos = ret.Pos()
-				}
-				c.check("C04.R1", fnKey(f)+"|"+what+" changed => ring rebuilt before return", pos, !open,
-					"after changing "+what+" the function can return without calling weighTargets(): the pickers keep using the stale ring, so weights and removed targets are not honoured")
-			}
-			continue
-		}
-		// closure: the mutation counts at the closure's call sites in the parent
-		parent := f.Parent()
-		var sites []*ssa.Call
-		eachInstr(parent, func(i ssa.Instruction) {
-			if call, ok := i.(*ssa.Call); ok {
-				if mc, ok := call.Call.Value.(*ssa.MakeClosure); ok && mc.Fn == f {
-					sites = append(sites, call)
-				}
-			}
-		})
-		if len(sites) == 0 {
-			c.undecided("C04.R1", fnKey(f)+"|closure call sites", "mutating closure is not called directly by its parent; cannot place the mutation")
-			continue
-		}
-		counted := closureCountsMutations(f, muts)
-		for _, s := range sites {
-			ret, open := exitReachableAvoiding(s, isWeigh)
-			if !open {
-				c.check("C04.R1", fnKey(parent)+"|"+what+" changed => ring rebuilt before return", s.Pos(), true, "")
-				continue
-			}
-			// accepted idiom: the open path passes an edge `count == 0` (or `count > 0` false) on a result of the closure
-			ok := counted && pathOnlyThroughZeroCount(s, ret, isWeigh, sites)
-			c.check("C04.R1", fnKey(parent)+"|"+what+" changed => ring rebuilt before return", ret.Pos(), ok,
-				"after changing "+what+" (through the closure) the function can return without calling weighTargets(); the only accepted skip is on the edge where the closure reported that it changed nothing (count == 0)")
-		}
-	}
-	c.atLeast("C04.R1", "functions mutating Route.Targets / Target.FixedWeight", n, 3)
+// c04point is a place where the inputs of the ring change: the store itself, or - one level up - the call of the
+// helper / closure that performs it without rebuilding the ring itself.
+type c04point struct {
+	at     ssa.Instruction
+	what   string
+	count  *ssa.Function   // the callee reports the number of changes it made through its result
+	origin ssa.Instruction // the store this obligation started from
+	exit   ssa.Instruction // the first exit of the origin's function that is reached without a rebuild
 }
 
-// closureCountsMutations: the closure returns an int that is incremented in every block containing a mutation.
-func closureCountsMutations(f *ssa.Function, muts []ssa.Instruction) bool {
-	if f.Signature.Results().Len() != 1 {
+// runC04R1: after every change of Route.Targets / Target.FixedWeight the ring is rebuilt before control returns to
+// code that can run a lookup. The rebuild is a call of the ring builder (resolved by role), directly, through a
+// helper that performs it on all of its paths, or deferred. A helper or closure that only performs the change hands
+// the obligation to its (static) call sites. The only accepted skip is the count-guarded one.
+func runC04R1(c *Ctx, b *c04builder) {
+	isRebuild := func(i ssa.Instruction) bool {
+		if _, isGo := i.(*ssa.Go); isGo {
+			return false
+		}
+		cc := callCommon(i)
+		if cc == nil {
+			return false
+		}
+		sc := cc.StaticCallee()
+		if sc == nil || !isRepoFn(sc) {
+			return false
+		}
+		if b.full[sc] {
+			return true
+		}
+		return mustExec(unwrap(sc), func(j ssa.Instruction) bool {
+			_, isGo := j.(*ssa.Go)
+			if cj := callCommon(j); cj != nil && !isGo {
+				return b.full[cj.StaticCallee()]
+			}
+			return false
+		}, 1)
+	}
+	pending := map[*ssa.Function][]c04point{}
+	var order []*ssa.Function
+	queued := map[[2]ssa.Instruction]bool{}
+	add := func(f *ssa.Function, p c04point) {
+		if queued[[2]ssa.Instruction{p.at, p.origin}] {
+			return
+		}
+		queued[[2]ssa.Instruction{p.at, p.origin}] = true
+		if _, ok := pending[f]; !ok {
+			order = append(order, f)
+		}
+		pending[f] = append(pending[f], p)
+	}
+	violated := map[ssa.Instruction]bool{}
+	nTargets, nFixed := 0, 0
+	for _, f := range c.AllFns {
+		if b.in[f] || b.in[c04outer(f)] {
+			continue
+		}
+		ff := f
+		eachInstr(f, func(i ssa.Instruction) {
+			if w, ok := isRingMutation(i); ok {
+				add(ff, c04point{at: i, what: w, origin: i})
+				if w == "Route.Targets" {
+					nTargets++
+				} else {
+					nFixed++
+				}
+			}
+		})
+	}
+	for round := 0; round < 4 && len(order) > 0; round++ {
+		cur, pts := order, pending
+		order, pending = nil, map[*ssa.Function][]c04point{}
+		for _, f := range cur {
+			sites, sitesKnown := c04callersOf(c, f)
+			counting := false
+			if sitesKnown {
+				var ats []ssa.Instruction
+				for _, p := range pts[f] {
+					ats = append(ats, p.at)
+				}
+				counting = c04countsChanges(f, ats)
+			}
+			for _, p := range pts[f] {
+				var counts []ssa.Value
+				if p.count != nil {
+					eachInstr(f, func(i ssa.Instruction) {
+						call, ok := i.(*ssa.Call)
+						if !ok {
+							return
+						}
+						if sc := call.Call.StaticCallee(); sc != nil && unwrap(sc) == p.count {
+							counts = append(counts, call)
+						} else if sc == nil {
+							for _, h := range funcsOf(call.Call.Value) {
+								if h == p.count {
+									counts = append(counts, call)
+								}
+							}
+						}
+					})
+				}
+				key := fnKey(c04outer(p.origin.Parent())) + "|" + p.what + " changed => ring rebuilt before return"
+				ret, open := c04openExit(p.at, isRebuild, counts)
+				if !open {
+					c.check("C04.R1", key, p.origin.Pos(), true, "")
+					continue
+				}
+				if p.exit == nil {
+					p.exit = ret
+				}
+				if sitesKnown && round < 3 {
+					for _, s := range sites {
+						q := c04point{at: s, what: p.what, origin: p.origin, exit: p.exit}
+						if counting {
+							q.count = f
+						}
+						add(s.Parent(), q)
+					}
+					continue
+				}
+				detail := "after changing " + p.what + " the function can return without rebuilding the weighted ring (" + fnKey(b.entry) + "): the pickers keep using the stale ring, so weights and removed targets are not honoured"
+				if p.count != nil || f.Parent() != nil {
+					detail += "; the only accepted skip is on the edge where the code that made the change reported that it changed nothing (count == 0)"
+				}
+				if violated[p.origin] {
+					continue
+				}
+				violated[p.origin] = true
+				if p.at != p.origin {
+					detail += " (nor does any caller up to " + fnKey(f) + " rebuild it after the call)"
+				}
+				c.check("C04.R1", key, p.exit.Pos(), false, detail)
+			}
+		}
+	}
+	c.atLeast("C04.R1", "stores to Route.Targets", nTargets, 1)
+	c.atLeast("C04.R1", "stores to Target.FixedWeight of an existing target", nFixed, 1)
+}
+
+func c04outer(f *ssa.Function) *ssa.Function {
+	for f != nil && f.Parent() != nil {
+		f = f.Parent()
+	}
+	return f
+}
+
+// c04callersOf: the places where f runs, when all of them are visible: f is a closure or an unexported function that
+// cannot be reached through an interface, and every use of it is a synchronous call in its package - a static call,
+// a call of a value that denotes it (a closure or method value held in a local), or a call it is handed to as an
+// argument. A use as a goroutine, or a value that escapes (stored, returned), makes the callers unknown.
+func c04callersOf(c *Ctx, f *ssa.Function) ([]ssa.Instruction, bool) {
+	if f.Parent() == nil {
+		if token.IsExported(f.Name()) || isInitFn(f) || f.Name() == "main" {
+			return nil, false
+		}
+		if f.Signature.Recv() != nil && gInvoked[f.Name()] {
+			return nil, false
+		}
+	}
+	denotes := func(v ssa.Value) bool {
+		switch v.(type) {
+		case *ssa.Function, *ssa.MakeClosure, *ssa.Phi, *ssa.UnOp, *ssa.ChangeType:
+		default:
+			return false
+		}
+		for _, h := range funcsOf(v) {
+			if h == f {
+				return true
+			}
+		}
 		return false
 	}
-	if b, ok := f.Signature.Results().At(0).Type().Underlying().(*types.Basic); !ok || b.Info()&types.IsInteger == 0 {
+	var out []ssa.Instruction
+	known := true
+	home := rootPkg(f)
+	for _, g := range c.AllFns {
+		if rootPkg(g) != home {
+			continue
+		}
+		eachInstr(g, func(i ssa.Instruction) {
+			if cc := callCommon(i); cc != nil && !cc.IsInvoke() {
+				hit := false
+				if sc := cc.StaticCallee(); sc != nil {
+					hit = unwrap(sc) == f
+				} else {
+					hit = denotes(cc.Value)
+				}
+				for _, a := range cc.Args {
+					if !hit && denotes(a) {
+						hit = true
+					}
+				}
+				if hit {
+					if _, isGo := i.(*ssa.Go); isGo {
+						known = false
+					} else if i.Parent() != f {
+						out = append(out, i)
+					}
+					return
+				}
+			}
+			// the function value itself: a closure or bound method made here must only be called or passed on
+			if mc, ok := i.(*ssa.MakeClosure); ok {
+				if fn, ok := mc.Fn.(*ssa.Function); ok && unwrap(fn) == f {
+					for _, r := range *mc.Referrers() {
+						switch x := r.(type) {
+						case *ssa.DebugRef:
+						case ssa.CallInstruction:
+						case *ssa.Store:
+							if _, local := x.Addr.(*ssa.Alloc); !local {
+								known = false
+							}
+						default:
+							known = false
+						}
+					}
+				}
+				return
+			}
+			for _, op := range i.Operands(nil) {
+				if op == nil || *op == nil {
+					continue
+				}
+				if fn, ok := (*op).(*ssa.Function); ok && unwrap(fn) == f {
+					known = false // stored, returned, sent ...
+				}
+			}
+		})
+	}
+	return out, known && len(out) > 0
+}
+
+// c04countsChanges: f returns an integer that is incremented whenever one of the change points executes (the
+// increment is in the block of the change or dominates it).
+func c04countsChanges(f *ssa.Function, points []ssa.Instruction) bool {
+	if f.Signature.Results().Len() != 1 || !c04isInt(f.Signature.Results().At(0).Type()) {
 		return false
 	}
 	var rets []ssa.Value
@@ -168,62 +358,71 @@ func closureCountsMutations(f *ssa.Function, muts []ssa.Instruction) bool {
 			rets = append(rets, r.Results[0])
 		}
 	})
-	for _, m := range muts {
+	var incs []*ssa.BinOp
+	eachInstr(f, func(i ssa.Instruction) {
+		bo, ok := i.(*ssa.BinOp)
+		if !ok || bo.Op != token.ADD {
+			return
+		}
+		k, isK := constInt(bo.Y)
+		if !isK {
+			k, isK = constInt(bo.X)
+		}
+		if !isK || k < 1 {
+			return
+		}
+		for _, r := range rets {
+			if derives(r, func(v ssa.Value) bool { return v == bo }) {
+				incs = append(incs, bo)
+				return
+			}
+		}
+	})
+	for _, m := range points {
 		found := false
-		for _, in := range m.Block().Instrs {
-			if bo, ok := in.(*ssa.BinOp); ok && bo.Op == token.ADD {
-				if k, ok := constInt(bo.Y); ok && k == 1 {
-					for _, r := range rets {
-						if derives(r, func(v ssa.Value) bool { return v == bo }) {
-							found = true
-						}
-					}
-				}
+		for _, bo := range incs {
+			if bo.Block() == m.Block() || bo.Block().Dominates(m.Block()) {
+				found = true
 			}
 		}
 		if !found {
 			return false
 		}
 	}
-	return len(rets) > 0
+	return len(rets) > 0 && len(points) > 0
 }
 
-// pathOnlyThroughZeroCount: every weighTargets-free path from `from` to a return crosses an edge on
-// which some closure call's result is known to be zero.
-func pathOnlyThroughZeroCount(from ssa.Instruction, ret ssa.Instruction, isWeigh func(ssa.Instruction) bool, sites []*ssa.Call) bool {
+// c04openExit: is there a path from `from` to a return of its function on which the ring is not rebuilt? A rebuild
+// deferred before `from` covers every exit. Edges on which one of counts (results of the call that made the change)
+// is known to be zero are not followed: nothing was changed there.
+func c04openExit(from ssa.Instruction, isRebuild func(ssa.Instruction) bool, counts []ssa.Value) (ssa.Instruction, bool) {
+	fn := from.Parent()
+	covered := false
+	eachInstr(fn, func(i ssa.Instruction) {
+		if d, ok := i.(*ssa.Defer); ok && isRebuild(d) && dominatesInstr(d, from) {
+			covered = true
+		}
+	})
+	if covered {
+		return nil, false
+	}
 	isCount := func(v ssa.Value) bool {
-		for _, s := range sites {
+		for _, s := range counts {
 			if v == s {
 				return true
 			}
 		}
 		return false
 	}
-	// cut all edges that carry the fact count == 0; if a return is still reachable the skip is not count-guarded
 	zeroEdge := func(b, s *ssa.BasicBlock) bool {
-		if len(b.Instrs) == 0 {
+		if len(counts) == 0 || len(b.Succs) != 2 || b.Succs[0] == b.Succs[1] {
 			return false
 		}
-		iff, ok := b.Instrs[len(b.Instrs)-1].(*ssa.If)
-		if !ok {
+		fs := c04edgeFacts(b, s)
+		if len(fs) == 0 {
 			return false
 		}
-		cmp, ok := iff.Cond.(*ssa.BinOp)
-		if !ok || !isCount(cmp.X) {
-			return false
-		}
-		k, ok := constInt(cmp.Y)
-		if !ok || k != 0 {
-			return false
-		}
-		truth := b.Succs[0] == s
-		switch cmp.Op {
-		case token.GTR, token.NEQ:
-			return !truth
-		case token.EQL, token.LEQ:
-			return truth
-		}
-		return false
+		return c04isZeroFact(fs[len(fs)-1], isCount)
 	}
 	type item struct {
 		b   *ssa.BasicBlock
@@ -237,229 +436,24 @@ func pathOnlyThroughZeroCount(from ssa.Instruction, ret ssa.Instruction, isWeigh
 		blocked := false
 		for k := it.idx; k < len(it.b.Instrs); k++ {
 			in := it.b.Instrs[k]
-			if isWeigh(in) {
+			if isRebuild(in) {
 				blocked = true
 				break
 			}
-			if _, ok := in.(*ssa.Return); ok {
-				return false // reachable without a zero-count edge
+			if r, ok := in.(*ssa.Return); ok {
+				return r, true
 			}
 		}
 		if blocked {
 			continue
 		}
 		for _, s := range it.b.Succs {
-			if zeroEdge(it.b, s) || seen[s] {
+			if seen[s] || zeroEdge(it.b, s) {
 				continue
 			}
 			seen[s] = true
 			stack = append(stack, item{s, 0})
 		}
 	}
-	return true
-}
-
-func runC04R4(c *Ctx) {
-	weigh := c.method("route", "Route", "weighTargets")
-	if !c.need("C04.R4", weigh, "route.Route.weighTargets") {
-		return
-	}
-	// slot count: int(<const> * t.Weight)
-	var raw []*ssa.Convert
-	eachInstr(weigh, func(i ssa.Instruction) {
-		cv, ok := i.(*ssa.Convert)
-		if !ok {
-			return
-		}
-		if b, ok := cv.Type().Underlying().(*types.Basic); !ok || b.Info()&types.IsInteger == 0 {
-			return
-		}
-		if derives(cv.X, func(v ssa.Value) bool { _, ok := fieldOf(v, "route.Target", "Weight"); return ok }) {
-			raw = append(raw, cv)
-		}
-	})
-	if len(raw) != 1 {
-		c.undecided("C04.R4", "anchor|slot count conversion in weighTargets", "expected one int(maxSlots*Weight) conversion")
-		return
-	}
-	n0 := raw[0]
-	// the value stored into the slot table must be a merge of n0 and the constant 1, the 1 chosen
-	// exactly under (n0 is zero) and (Weight > 0)
-	var stored ssa.Value
-	eachInstr(weigh, func(i ssa.Instruction) {
-		if st, ok := i.(*ssa.Store); ok {
-			if fa, ok := st.Addr.(*ssa.FieldAddr); ok && fieldName(fa.X.Type(), fa.Field) == "n" {
-				if derives(st.Val, func(v ssa.Value) bool { return v == n0 }) || st.Val == n0 {
-					stored = st.Val
-				}
-			}
-		}
-	})
-	if stored == nil {
-		c.undecided("C04.R4", "anchor|slot count store", "slot count derived from the weight is not stored into the slot table")
-		return
-	}
-	okFloor := false
-	detail := "the slot count must be raised to 1 when it is 0 and the weight is > 0"
-	if call, ok := stored.(*ssa.Call); ok && calleeName(&call.Call) == "builtin.max" {
-		// max(n, 1) is acceptable only under Weight > 0 — conservatively require the weight test
-		for _, f := range factsAt(call.Block()) {
-			if weightPositive(f) {
-				okFloor = true
-			}
-		}
-	}
-	for _, d := range defsOf(stored) {
-		if k, ok := constInt(d.Val); ok && k == 1 && d.Block != nil {
-			zero, pos := false, false
-			for _, f := range factsAt(d.Block) {
-				if zeroCount(f, n0) {
-					zero = true
-				}
-				if weightPositive(f) {
-					pos = true
-				}
-			}
-			if zero && pos {
-				okFloor = true
-			} else if !pos {
-				detail = "the one-slot floor must apply only to targets with weight > 0 (a zero-weight target must never be picked)"
-			}
-		}
-	}
-	c.check("C04.R4", "route.(*Route).weighTargets|positive weight gets at least one slot", n0.Pos(), okFloor, detail+": otherwise a small positive weight is starved, or a zero weight receives traffic")
-
-	// targets with slot count <= 0 are skipped: the placement loop body is under `s.n <= 0` false / `s.n > 0` true
-	nDiv := 0
-	eachInstr(weigh, func(i ssa.Instruction) {
-		b, ok := i.(*ssa.BinOp)
-		if !ok || (b.Op != token.QUO && b.Op != token.REM) {
-			return
-		}
-		if bt, ok := b.X.Type().Underlying().(*types.Basic); !ok || bt.Info()&types.IsInteger == 0 {
-			return
-		}
-		if _, isConst := b.Y.(*ssa.Const); isConst {
-			return
-		}
-		nDiv++
-		ok2, why := divisorNonZero(b)
-		c.check("C04.R5", "route.(*Route).weighTargets|integer division by "+shortPath(b.Y), b.Pos(), ok2, "ring arithmetic: "+why)
-	})
-	c.atLeast("C04.R5", "integer divisions in weighTargets", nDiv, 2)
-}
-
-func zeroCount(f Fact, n0 ssa.Value) bool {
-	b, ok := f.Cond.(*ssa.BinOp)
-	if !ok || b.X != n0 {
-		return false
-	}
-	k, ok := constInt(b.Y)
-	if !ok {
-		return false
-	}
-	switch {
-	case b.Op == token.EQL && k == 0:
-		return f.Truth
-	case b.Op == token.NEQ && k == 0:
-		return !f.Truth
-	case b.Op == token.LSS && k == 1, b.Op == token.LEQ && k == 0:
-		return f.Truth
-	case b.Op == token.GEQ && k == 1, b.Op == token.GTR && k == 0:
-		return !f.Truth
-	}
-	return false
-}
-
-func weightPositive(f Fact) bool {
-	b, ok := f.Cond.(*ssa.BinOp)
-	if !ok {
-		return false
-	}
-	if _, isW := fieldOf(b.X, "route.Target", "Weight"); !isW {
-		return false
-	}
-	k, isK := b.Y.(*ssa.Const)
-	if !isK || k.Value == nil {
-		return false
-	}
-	z := k.Float64() == 0
-	switch b.Op {
-	case token.GTR:
-		return f.Truth && z
-	case token.LEQ:
-		return !f.Truth && z
-	}
-	return false
-}
-
-func runC04R5(c *Ctx) {
-	weigh := c.method("route", "Route", "weighTargets")
-	if weigh == nil {
-		return
-	}
-	// ring allocation guarded by usedSlots > 0
-	n := 0
-	eachInstr(weigh, func(i ssa.Instruction) {
-		ms, ok := i.(*ssa.MakeSlice)
-		if !ok {
-			return
-		}
-		if _, isConst := ms.Len.(*ssa.Const); isConst {
-			return
-		}
-		if call, isCall := ms.Len.(*ssa.Call); isCall && calleeName(&call.Call) == "builtin.len" {
-			return // len(x) is never negative
-		}
-		n++
-		ok2 := false
-		same := samePath(ms.Len)
-		for _, f := range factsAt(ms.Block()) {
-			if b, ok := f.Cond.(*ssa.BinOp); ok && same(b.X) {
-				if k, ok := constInt(b.Y); ok {
-					switch {
-					case b.Op == token.LEQ && k == 0 && !f.Truth, b.Op == token.GTR && k == 0 && f.Truth,
-						b.Op == token.LSS && k <= 1 && !f.Truth && k >= 0, b.Op == token.GEQ && k >= 0 && f.Truth:
-						ok2 = true
-					}
-				}
-			}
-		}
-		c.check("C04.R5", "route.(*Route).weighTargets|ring allocation size >= 0", ms.Pos(), ok2,
-			"make([]*Target, usedSlots) panics for a negative size (slot counts computed from non-finite or overflowing weights); it must be dominated by a usedSlots > 0 test")
-	})
-	c.atLeast("C04.R5", "computed-size allocations in weighTargets", n, 1)
-	runFiniteWeight(c, "C04.R5")
-}
-
-// runFiniteWeight: the float produced by strconv.ParseFloat for a route weight is returned
-// only under !IsNaN and !IsInf (a NaN/Inf weight turns into a NaN share and a garbage slot count).
-func runFiniteWeight(c *Ctx, rule string) {
-	pw := c.fn("route", "parseWeight")
-	if !c.need(rule, pw, "route.parseWeight") {
-		return
-	}
-	n := 0
-	eachInstr(pw, func(i ssa.Instruction) {
-		r, ok := i.(*ssa.Return)
-		if !ok || len(r.Results) != 2 {
-			return
-		}
-		if !derives(r.Results[0], func(v ssa.Value) bool { _, ok := isCallTo(v, "strconv.ParseFloat"); return ok }) {
-			return
-		}
-		n++
-		nan, inf := false, false
-		for _, f := range factsAt(r.Block()) {
-			if _, truth, ok := boolCallFact(f, "math.IsNaN"); ok && !truth {
-				nan = true
-			}
-			if _, truth, ok := boolCallFact(f, "math.IsInf"); ok && !truth {
-				inf = true
-			}
-		}
-		c.check(rule, "route.parseWeight|parsed weight is finite", r.Pos(), nan && inf,
-			"strconv.ParseFloat accepts 'Inf' and 'NaN'; a non-finite weight becomes a NaN share in weighTargets, int(NaN) is a huge negative slot count and make() panics in the table update loop (no recover) — the parser must reject it")
-	})
-	c.atLeast(rule, "returns of the parsed float in parseWeight", n, 1)
+	return nil, false
 }
